@@ -11,7 +11,13 @@ import (
 type Monitor struct{}
 type Model struct{}
 
-func (cr *coreRun) attach() {}
+func (cr *coreRun) attach() {
+	if cr.body.NoMonitor {
+		return
+	}
+	cr.ms = newMonitor(cr)
+	cr.ms.attach()
+}
 
 // finalChecks runs after the drain: everything must have ended and been answered.
 func (cr *coreRun) finalChecks() {
@@ -22,6 +28,9 @@ func (cr *coreRun) finalChecks() {
 			continue
 		}
 		if len(r.Replies) == 0 {
+			if r.excused {
+				continue // reported below as reply_from_recycled_command
+			}
 			w.violate("C03", "no_reply", "request %s was never answered", r)
 			continue
 		}
@@ -45,7 +54,15 @@ func (cr *coreRun) finalChecks() {
 		}
 	}
 	for _, rep := range cr.h.stray {
-		w.violate("C03", "stray_reply", "client %d received a reply (result %d) for a RequestId nobody sent", rep.Conn, rep.Result)
+		if rep.Recycled {
+			w.violate("C03", "reply_from_recycled_command", "client %d received the reply to one of its lock requests under the foreign RequestId %x (result %d): the hold it had just been granted was ended by another client before the SUCCED reply was built, and the reply was built from the already recycled command object", rep.Conn, rep.StrayRid[1:7], rep.Result)
+			continue
+		}
+		if o := cr.h.reqs[rep.StrayRid]; o != nil {
+			w.violate("C03", "misrouted", "client %d received a reply (result %d) bearing the RequestId of %s, which it did not send", rep.Conn, rep.Result, o)
+		} else {
+			w.violate("C03", "stray_reply", "client %d received a reply (result %d) for a RequestId nobody sent", rep.Conn, rep.Result)
+		}
 	}
 	// C17: counters and census are zero after the drain, values gone, nothing freed is reachable
 	c := w.census(cr.node.sl)
